@@ -59,14 +59,18 @@ def child() -> None:
 
 def main() -> int:
     results = {}
-    for hs in ("1", "2", "3"):
-        env = dict(os.environ, PYTHONHASHSEED=hs, HS_ROOT=ROOT)
-        p = subprocess.run([sys.executable, os.path.abspath(__file__), "--child"],
-                           env=env, capture_output=True, text=True, check=False)
+    procs = {
+        hs: subprocess.Popen([sys.executable, os.path.abspath(__file__), "--child"],
+                             env=dict(os.environ, PYTHONHASHSEED=hs, HS_ROOT=ROOT),
+                             stdout=subprocess.PIPE, stderr=subprocess.PIPE, text=True)
+        for hs in ("1", "2", "3")
+    }  # fresh interpreters, started concurrently
+    for hs, p in procs.items():
+        out, err = p.communicate()
         if p.returncode != 0:
-            print(p.stderr)
+            print(err)
             return 2
-        results[hs] = json.loads(p.stdout.strip().splitlines()[-1])
+        results[hs] = json.loads(out.strip().splitlines()[-1])
         print(f"PYTHONHASHSEED={hs}: {results[hs]}")
     same = len({r["digest"] for r in results.values()}) == 1
     print("ok: identical run in every interpreter" if same
